@@ -95,8 +95,9 @@ def run(ctx, broken):
         if any(o.startswith("Y") for o in io):
             nt.add(line)
     pn, pf = bcommon.layout_probe(ctx)
+    kn, kf = bcommon.capacity_probe(ctx)
     cn, cf = bcommon.columns_probe(ctx)
-    pn, pf = pn + cn, cf + pf
+    pn, pf = pn + cn + kn, kf + cf + pf
     res["failures"] = pf[:20] + res["failures"][:200]
     res["evaluations"] += pn
     res["distinct_nontrivial"] = len(nt) + pn
@@ -104,7 +105,7 @@ def run(ctx, broken):
                    "panicking fills), each parked by the scheduler at every yield point (after fetch_add, before every bucket CAS, before every publication) and stepped in "
                    "random order, interleaved with get / count / snapshot probes; styles: mixed, bucket-boundary races, lying extends. Every observation is compared with the "
                    "extracted model's and checked by the spec oracle (distinct gap-free indices, no phantom / torn / vanishing items, monotone count). Non-trivial = history "
-                   "in which at least one thread was parked mid-operation. %d observations in total." % steps) + bcommon.LAYOUT_RULE + bcommon.COLUMNS_RULE + " %d probe cases." % pn
+                   "in which at least one thread was parked mid-operation. %d observations in total." % steps) + bcommon.LAYOUT_RULE + bcommon.COLUMNS_RULE + " Capacity probe: the reservation counter driven past 2^32 by batches that over-report their length; no index may be handed out twice afterwards." + " %d probe cases." % pn
     res["samples"] = [{"history": r[0][:300], "implementation": ";".join(r[2])[:300]} for r in recs[:3]]
     res["extra"] = {"observations": steps, "layout_probe_cases": pn}
     # a publication that is not release / acquire lets a lookup return an item that is not completely written (under
